@@ -66,7 +66,7 @@ impl Case for TagCase {
 
 fn pattern(i: usize, shape: u8) -> String {
     match shape {
-        0 => format!("/uniq{}/", i),
+        0 => format!("/uniq{}/x", i), // (a pattern that starts AND ends with '/' would be a regex)
         1 => format!("/uniq{}^*x", i),
         2 => format!("/\\/uniq{}\\/[a-z]/", i),
         _ => format!("||h{}.example.com/uniq{}/", i, i),
@@ -84,11 +84,11 @@ fn lines(c: &TagCase) -> Vec<String> {
         match r.kind {
             Kind::Block => out.push(format!("{}$tag={}", p, r.tag)),
             Kind::Exception => {
-                out.push(format!("/uniq{}/", i)); // untagged blocker so the exception is observable
+                out.push(format!("/uniq{}/x", i)); // untagged blocker so the exception is observable
                 out.push(format!("@@{}$tag={}", p, r.tag));
             }
             Kind::Important => {
-                out.push(format!("@@/uniq{}/", i)); // an exception that the important rule must beat
+                out.push(format!("@@/uniq{}/x", i)); // an exception that the important rule must beat
                 out.push(format!("{}$important,tag={}", p, r.tag));
             }
             Kind::Csp => out.push(format!("{}$csp=script-src u{},tag={}", p, i, r.tag)),
@@ -197,7 +197,7 @@ fn tagset(t: &mut Tape) -> Vec<String> {
 }
 
 pub fn decode(t: &mut Tape) -> TagCase {
-    let n = 1 + t.pick(6);
+    let n = if t.chance(1, 40) { 40 + t.pick(200) } else { 1 + t.pick(6) };
     let mut rules = vec![];
     for _ in 0..n {
         let kind = match t.pick(4) {
